@@ -10,7 +10,10 @@
 (*    Overwrite(field, value class)   the field gets the value the class   *)
 (*                                    names (0, 1, max, max-1, 0x7F..,     *)
 (*                                    0x80.., old+1, old-1, old*2, file    *)
-(*                                    length, table length)                *)
+(*                                    length, table length; for offset and *)
+(*                                    index fields also the reference to   *)
+(*                                    the structure that contains the      *)
+(*                                    field and to that structure's parent)*)
 (*    Truncate(at)                    the file ends at byte `at` (at the   *)
 (*                                    start of a field or inside it)       *)
 (*    RemoveTable(rec)                a directory record is deleted        *)
@@ -37,7 +40,18 @@ EXTENDS Integers, Sequences, FiniteSets, SequencesExt, FiniteSetsExt, TLC
 S == INSTANCE Sfnt
 
 Roles        == {"count", "offset", "length", "version", "index", "value"}
-ValueClasses == {"zero", "one", "max", "max-1", "hi7f", "hi80", "inc", "dec", "dbl", "filelen", "tablelen"}
+\* byte-level classes: the new value is a function of the old bytes, the file and the table length
+ByteClasses  == {"zero", "one", "max", "max-1", "hi7f", "hi80", "inc", "dec", "dbl", "filelen", "tablelen"}
+\* reference classes: the field is made to refer to the structure that contains it ("self": an
+\* offset gets the offset of its own structure, a glyph / subroutine / lookup index or a character
+\* code gets the number of the object it sits in) or to the structure that refers to that one
+\* ("parent").  These are the smallest cycles a chain of references can have: what recursion and
+\* nesting limits exist for.  No function of the old bytes produces them; the value is a fact of
+\* the structural walk, carried by the field as sv / pv (-1 = the field has no such reference).
+RefClasses   == {"self", "parent"}
+ValueClasses == ByteClasses \cup RefClasses
+RefRoles     == {"offset", "index"}
+ClassApplies(vc, role) == vc \in RefClasses => role \in RefRoles
 Levels       == {"dir", "table"}
 FaultKinds   == {"Overwrite", "Truncate", "RemoveTable", "ShrinkLength", "SwapTables"}
 TruncWhere   == {"at", "inside"}
@@ -78,8 +92,9 @@ Dec(a)  == AddC(a, Ones(Len(a)), 0)
 Dbl(a)  == AddC(a, a, 0)
 Half(a) == HalfC(a, 0)
 
-\* the value a class names for a field that held `old` (Len(old) = width)
-NewValue(vc, old, flen, tlen) ==
+\* the value a class names for a field that held `old` (Len(old) = width); sv / pv: the references
+\* of the field (numbers below 2^31; the low-order bytes are written, as a reader of the field sees them)
+NewValue(vc, old, flen, tlen, sv, pv) ==
   LET w == Len(old) IN
   CASE vc = "zero"     -> Zeros(w)
     [] vc = "one"      -> BytesOf(1, w)
@@ -92,10 +107,15 @@ NewValue(vc, old, flen, tlen) ==
     [] vc = "dbl"      -> Dbl(old)
     [] vc = "filelen"  -> BytesOf(flen, w)
     [] vc = "tablelen" -> BytesOf(tlen, w)
+    [] vc = "self"     -> BytesOf(sv, w)
+    [] vc = "parent"   -> BytesOf(pv, w)
+
+\* a reference class applies to a field that has the reference
+HasRef(vc, sv, pv) == (vc = "self" => sv >= 0) /\ (vc = "parent" => pv >= 0)
 
 ---------------------------------------------------------------------------
 \* Faults on byte strings.  Positions are 0-based.
-\*   [k |-> "Overwrite", off, w, vc, tlen]
+\*   [k |-> "Overwrite", off, w, vc, tlen, sv, pv]
 \*   [k |-> "Truncate", at]
 \*   [k |-> "RemoveTable", rec, size, cnt, idx, n]   record at rec (size bytes, index idx of n), count at cnt (u16)
 \*   [k |-> "ShrinkLength", off, mode]               u32 length field at off
@@ -105,11 +125,12 @@ Patch(bs, p, new) == [k \in 1 .. Len(bs) |-> IF k > p /\ k <= p + Len(new) THEN 
 Window(bs, p, w)  == SubSeq(bs, p + 1, p + w)
 InFile(bs, p, w)  == p >= 0 /\ p + w <= Len(bs)
 
-\* a fault whose target no longer lies inside the (already truncated) file does nothing
+\* a fault whose target no longer lies inside the (already truncated) file does nothing; neither does
+\* a reference class on a field without that reference
 Apply(bs, f) ==
   CASE f.k = "Overwrite" ->
-         IF InFile(bs, f.off, f.w)
-         THEN Patch(bs, f.off, NewValue(f.vc, Window(bs, f.off, f.w), Len(bs), f.tlen)) ELSE bs
+         IF InFile(bs, f.off, f.w) /\ HasRef(f.vc, f.sv, f.pv)
+         THEN Patch(bs, f.off, NewValue(f.vc, Window(bs, f.off, f.w), Len(bs), f.tlen, f.sv, f.pv)) ELSE bs
     [] f.k = "Truncate" -> SubSeq(bs, 1, IF f.at < Len(bs) THEN f.at ELSE Len(bs))
     [] f.k = "RemoveTable" ->
          LET last == f.rec + (f.n - f.idx) * f.size IN      \* end of the directory
